@@ -53,7 +53,10 @@ def _exec_checked(profile, case, known):
     from . import simfs, lib
     ev0 = simfs.EVENTS[0]
     try:
-        with lib.knobs(dedup_chunk=case.get('dedup_chunk') if isinstance(case, dict) else None):
+        import contextlib
+        low = isinstance(case, dict) and case.get('low_memory')
+        with lib.knobs(dedup_chunk=case.get('dedup_chunk') if isinstance(case, dict) else None), \
+                (lib.low_memory() if low else contextlib.nullcontext()):
             if isinstance(case, dict) and case.get('exc_in_flight'):
                 try:
                     raise LookupError('the caller is handling this unrelated exception')
@@ -62,6 +65,9 @@ def _exec_checked(profile, case, known):
                 res.probe('exception-in-flight')
             else:
                 res = profile.execute(case)
+        if low:
+            res.probe('low-memory')
+            res.fault('address-space-limit')
         if not res.io_events:
             res.io_events = simfs.EVENTS[0] - ev0
     except simfs.NoProgress as exc:
@@ -235,7 +241,32 @@ def make_case(profile, rng, run, tier):
         # the caller is in the middle of handling an unrelated exception (an except block, a finally or __exit__ that
         # runs because something is propagating): sys.exc_info() is not empty while the library works
         case['exc_in_flight'] = rng.random() < 0.08
+    if isinstance(case, dict) and 'low_memory' not in case:
+        # the process is close to its address space limit (RLIMIT_AS = current size + 512 MiB): a failing allocation is
+        # the fault; reading a file of a few KiB must not need memory in proportion to what its headers state
+        # (only for worlds of less than 1 MiB of content, so that the harness' own bookkeeping - normal forms, digests -
+        # stays far below the headroom)
+        size, stated_huge = _payload(case, 2**20)
+        # a world whose last segment states a 4 GiB chunk is where that fault bites: most of those run under the limit
+        case['low_memory'] = rng.random() < (0.6 if stated_huge else 0.06) and size < 2**20
     return case
+
+
+def _payload(obj, stop):
+    """(bytes of content - strings, byte strings - held by a case, counted up to `stop`; whether a segment states a huge chunk)"""
+    total = 0
+    stated_huge = False
+    todo = [obj]
+    while todo and total < stop:
+        x = todo.pop()
+        if isinstance(x, (bytes, bytearray, str)):
+            total += len(x)
+        elif isinstance(x, dict):
+            stated_huge = stated_huge or bool(x.get('declared_huge'))
+            todo.extend(x.values())
+        elif isinstance(x, (list, tuple)):
+            todo.extend(x)
+    return total, stated_huge
 
 
 def regenerate(profile, prop, tier, base_seed, run):
